@@ -5,7 +5,7 @@
 
   Gone since the repo fixes: the "no -0.0" conditions (59db810 setters, 7828c58 CopyFromSlice),
   the "nested maps of at most one entry" condition (571960a), "summaries unflagged" and "no exemplars
-  on flagged points" (ede8608).
+  on flagged points" (ede8608), "histogram points have buckets" (9c5d1f7).
 -/
 import Stef.Otlp.Metrics
 import Stef.Otlp.Traces
@@ -65,10 +65,15 @@ def Point.exOk (p : Point) : Bool := p.exemplars.all Exemplar.clean
     valueless-number-point-becomes-nrv: a value-less point without the flag comes back flagged) -/
 def Point.cleanNum (p : Point) : Bool := p.base && p.exOk && (p.vt == 1 || p.vt == 2 || (p.vt == 0 && flagged p))
 
-/-- histogram point: one more bucket than bounds unless flagged (finding
-    histogram-no-buckets-rejected; other length mismatches are invalid OTLP) -/
-def Point.cleanHist (p : Point) : Bool :=
-  p.base && p.exOk && (flagged p || p.buckets.length == p.bounds.length + 1)
+/-- bucket counts and bounds of a histogram point the converters accept: one more bucket than
+    bounds, or neither buckets nor bounds (accepted since repo commit 9c5d1f7), or anything when the
+    point is flagged (the lengths are not looked at then); other length mismatches are invalid OTLP
+    and rejected -/
+def Point.histLenOk (p : Point) : Bool :=
+  flagged p || p.buckets.length == p.bounds.length + 1 || (p.buckets.isEmpty && p.bounds.isEmpty)
+
+/-- histogram point -/
+def Point.cleanHist (p : Point) : Bool := p.base && p.exOk && p.histLenOk
 
 /-- exponential histogram point: scale and offsets are int32 -/
 def Point.cleanExp (p : Point) : Bool :=
